@@ -64,6 +64,7 @@ class Spec:
 
     def evaluate(self, lane, plan, **kw):
         W = self.judge_world(plan)
+        kw.setdefault("line_budget", self.py_line_budget)  # also the budget of the hang-confirmation stage
         jr = lane.run(plan, engine=self.engines[0], **kw)
         vs = W.judge(plan, jr, self.prop)
         ev = self.end_violations(plan, jr, self.engines[0])
@@ -229,6 +230,7 @@ class C20(Spec):
         return self.world.stats(plan, jrs)
 
     def evaluate(self, lane, plan, **kw):
+        kw.setdefault("line_budget", 0)  # mixed worlds: hangs are confirmed by the solo wall-clock replay only
         ja = lane.run(plan, engine="jit", **kw)
         jb = lane.run(plan, engine="py", **kw)
         vs = []
